@@ -355,7 +355,11 @@ impl AggregateState {
             }
             AggregateState::SumInt(sum) => {
                 if let Some(Value::Int64(v)) = value {
-                    *sum += v;
+                    // An integer sum that leaves the i64 range continues as a float sum
+                    match sum.checked_add(v) {
+                        Some(total) => *sum = total,
+                        None => *self = AggregateState::SumFloat(*sum as f64 + v as f64),
+                    }
                 } else if let Some(Value::Float64(v)) = value {
                     // Convert to float sum
                     *self = AggregateState::SumFloat(*sum as f64 + v);
@@ -371,7 +375,16 @@ impl AggregateState {
                     let hashable = HashableValue::from(v);
                     if seen.insert(hashable) {
                         if let Value::Int64(i) = v {
-                            *sum += i;
+                            match sum.checked_add(*i) {
+                                Some(total) => *sum = total,
+                                None => {
+                                    let seen_clone = seen.clone();
+                                    *self = AggregateState::SumFloatDistinct(
+                                        *sum as f64 + *i as f64,
+                                        seen_clone,
+                                    );
+                                }
+                            }
                         } else if let Value::Float64(f) = v {
                             // Convert to float distinct
                             let seen_clone = seen.clone();
